@@ -196,6 +196,44 @@ class E2E:
                 os.unlink(db)
 
 
+def default_limit(ctx):
+    """"a size limit of zero (the default)": the shipped configurations, untouched, produce no TypedDict anywhere"""
+    import fx_target
+    from monkeytype.config import Config, DefaultConfig
+    d = tempfile.mkdtemp(prefix="c06d-")
+    try:
+        class Minimal(Config):
+            def trace_store(self_inner):
+                return SQLiteStore.make_store(os.path.join(d, "minimal.sqlite3"))
+
+        for name, cfg, cfg_arg, db in (("DefaultConfig", DefaultConfig(), "monkeytype.config:DefaultConfig()", os.path.join(d, "default.sqlite3")),
+                                       ("Config-subclass-with-defaults", Minimal(), None, os.path.join(d, "minimal.sqlite3"))):
+            os.environ["MT_DB_PATH"] = db
+            spec = ["DEFAULT-LIMIT", name]
+            ctx.case(spec, True, ["default-limit"])
+            if cfg.max_typed_dict_size() != 0:
+                ctx.fail("C06/default-limit-is-not-zero", spec, f"{name}().max_typed_dict_size() == {cfg.max_typed_dict_size()}", raise_=False)
+            with monkeytype.trace(cfg):
+                fx_target.ident({"a": 1, "b": "x"})
+                fx_target.boxed({"a": {"b": 2}})
+                list(fx_target.gen({"a": 1}, {"b": 2}))
+            con = sqlite3.connect(db)
+            raw = con.execute("select arg_types, return_type, yield_type from monkeytype_call_traces where module = 'fx_target'").fetchall()
+            con.close()
+            if not raw:
+                raise core.HarnessError("nothing recorded for the default-limit workload")
+            if any(c and "is_typed_dict" in c for row in raw for c in row):
+                ctx.fail("C06/store:typeddict-with-limit-zero", spec, f"{name}: a stored row mentions a TypedDict", raise_=False)
+            if cfg_arg:
+                out, err = io.StringIO(), io.StringIO()
+                cli.main(["-c", cfg_arg, "stub", "fx_target"], out, err)
+                if "TypedDict" in out.getvalue():
+                    ctx.fail("C06/stub:typeddict-with-limit-zero", spec, f"{name}: stub mentions TypedDict\n{out.getvalue()[:500]}", raise_=False)
+    finally:
+        os.environ.pop("MT_DB_PATH", None)
+        shutil.rmtree(d, ignore_errors=True)
+
+
 def do_case(ctx, specs, k, e2e, rw):
     vs = [vals.build(s) for s in specs]
     spec = ["T", specs, k]
@@ -231,6 +269,9 @@ def shard(ctx):
     q = ctx.tier == "quick"
     e2e = E2E()
     try:
+        if ctx.shard == 0:
+            default_limit(ctx)
+
         def f1(ctx):
             @given(st.one_of(st.tuples(dict_rich(), st.integers(0, 1000)).map(lambda p: (p[0], vals.k_for(p[0], p[1]))),
                              tinfer.overflow_multiset()))
@@ -256,6 +297,8 @@ def run(ctx):
 
 
 def replay(ctx, case):
+    if case[0] == "DEFAULT-LIMIT":
+        return default_limit(ctx)
     if case[0] == "E2E":
         e = E2E()
         try:
